@@ -43,6 +43,10 @@ CLASSES = ["L1Reg", "L1Reg-arr", "L2Reg", "L2Reg-y", "L2Reg-L1", "L2Reg-Box", "L
            "Unitary-nested",
            "fn-soft_thresh", "fn-l1_proj", "fn-l2_proj", "fn-linf_proj", "fn-psd_proj",
            "fn-hard_thresh"]
+# classes that accept integer-dtype data on the unchanged tree (the thresholding family; the
+# in-place formulas of L2Reg / Box reject it loudly with NumPy's casting error)
+INT_OK = ("L1Reg", "L1Reg-arr", "LInfProj", "L1Proj", "L2Proj", "Conj-L1Reg", "Conj-LInfProj",
+          "Conj-L1Proj")
 INPUTS = ["gauss", "gauss-big", "zeros", "boundary", "interior", "ties", "tiny", "huge",
           "const", "onehot", "pow2", "small-int", "alternating", "zeros-mixed", "denormal"]
 PSD_INPUTS = ["sym", "herm", "nonherm", "rankdef", "repeated", "identity", "zero", "psd",
@@ -405,13 +409,19 @@ def run_case(case):
             del STATE.events[nev:]
     if case.get("single") and "Psd" not in cls:
         y = y.astype(np.complex64 if np.iscomplexobj(y) else np.float32)
+    if case["pseed"] % 9 == 5 and not cplx and _SC[0] == 1.0 and cls in INT_OK and \
+            np.ndim(alpha) == 0:
+        # real data held in an integer array (counts, labels): thresholds and radii are not
+        # integers - the result is the real-valued minimiser
+        y = np.round(np.real(y) * 3).astype(np.int64)
+
     if case.get("npscalar") and np.ndim(alpha) == 0:
         alpha = np.float64(alpha)          # NumPy scalar instead of a Python float
     elif np.ndim(alpha) == 0 and case["pseed"] % 11 == 4:
         # an integer step size (Python int or NumPy integer)
         alpha = pick(rng, [2, 3, np.int64(2), 1])
     sig = "%s|%s|%s|%dd%s" % (cls, inp, y.dtype.char, len(shape), "|big" if case.get("big") else "")
-    if case["pseed"] % 3 == 1:
+    if case["pseed"] % 3 == 1 and y.dtype.kind != "i":
         # history: the object first rejects calls (wrong shape, wrong rank, no array), then
         # gets the valid one
         nev = len(STATE.events)
